@@ -39,6 +39,28 @@ def run_property(prop, tier, report):
             n_sel += 1
             if n_sel in (3, 40, 200):
                 samples.append(v)
+        # requests of five and six keys (quick: every 8th), and the requests that mention the pre-release
+        big, bstats = tlc_cached("registry-big", "MC_Registry", "Registry_big.cfg", workers=4, timeout=900)
+        pre, pstats = tlc_cached("registry-pre", "MC_Registry", "Registry_pre.cfg", workers=4, timeout=900)
+        n_big = n_pre = 0
+        with gzip.open(big, "rt") as gz:
+            for i, line in enumerate(gz):
+                if quick and i % 8 != 0:
+                    continue
+                out.write(line)
+                n_big += 1
+        with gzip.open(pre, "rt") as gz:
+            for line in gz:
+                v = tlc_json(line)
+                if any(k[1] == 4 for k in v["req"]):
+                    out.write(line)
+                    n_pre += 1
+                    if n_pre == 5:
+                        samples.append(v)
+        n_sel += n_big + n_pre
+        stats = dict(stats, distinct=stats["distinct"] + bstats["distinct"] + pstats["distinct"],
+                     generated=stats["generated"] + bstats["generated"] + pstats["generated"],
+                     lines=stats["lines"] + bstats["lines"] + pstats["lines"])
     with open(sel, "rb") as f:
         r = subprocess.run([os.path.join(HARNESS, "target", "release", "wac-verif-registry"),
                             "--workers", "1,4" if quick else "1,2,4"],
@@ -66,7 +88,10 @@ def run_property(prop, tier, report):
     cov["completion_orders_observed"] = summary["completion_orders"]
     cov["rule"] = ("TLC explores every request of 1..N distinct keys (N=3 quick, 4 thorough) over the registry {a: 1,2; b: 1; "
                    "c missing; version 3 missing} with every completion order of the download tasks and checks the result "
-                   "against the contract; the requests are replayed through the real RegistryPackageResolver against an "
+                   "against the contract; Registry_big.cfg adds every order of the five keys that have a meaning, alone "
+                   "and followed by a key of the missing package (five and six keys: more than any cap on concurrent "
+                   f"downloads; {n_big} replayed), Registry_pre.cfg a registry with a pre-release of a between its two "
+                   f"releases ({n_pre} requests mentioning it replayed); the requests are replayed through the real RegistryPackageResolver against an "
                    "in-process Warg server (contents of 64 B / 30 kB / 600 kB, fresh client cache per call) on runtimes "
                    "with 1, (2,) 4 workers; hook H4 records the completion orders that actually happened")
     cov["samples"] = samples
